@@ -1,5 +1,5 @@
 (* polib_unescape returns the string for every spelling of the printer family (Spec/PoSyntax.v, part 1)
-   and emits no warning. *)
+   and emits no warning.  Hex escapes have any number of digits (the code after the repair of D29). *)
 From Coq Require Import List NArith Bool Lia ZifyBool Arith.
 From I18n Require Import Lib.Outcome Model.PoUnescape Spec.PoSyntax.
 Import ListNotations.
@@ -38,8 +38,42 @@ Lemma go_skip dec pre : forall s run,
 Proof. induction pre as [|a pre IH]; intros s run; [reflexivity|]. cbn [app length unescape_go]. apply IH. Qed.
 Lemma fixup_skip pre : forall s, fixup (pre ++ s) (length pre) = fixup s 0.
 Proof. induction pre as [|a pre IH]; intros s; [reflexivity|]. cbn [app length fixup]. apply IH. Qed.
+Lemma fixup_long_skip pre : forall s, fixup_long (pre ++ s) (length pre) = fixup_long s 0.
+Proof. induction pre as [|a pre IH]; intros s; [reflexivity|]. cbn [app length fixup_long]. apply IH. Qed.
 Lemma bytes_eval_skip pre : forall s, bytes_eval (pre ++ s) (length pre) = bytes_eval s 0.
 Proof. induction pre as [|a pre IH]; intros s; [reflexivity|]. cbn [app length bytes_eval]. apply IH. Qed.
+
+(* ---------------- a hex escape takes every hex digit that follows ---------------- *)
+Definition hexb (c : N) : Prop := is_hex c = true.
+
+Lemma hex_hexb d : Forall c_hex d -> Forall hexb d.
+Proof. apply Forall_impl. exact hex_is_hex. Qed.
+
+Lemma hex_span_app d s : Forall hexb d -> nth_is is_hex s 0 = false -> hex_span (d ++ s) = length d.
+Proof.
+  induction d as [|a d IH]; intros Hd Hs; cbn [app].
+  - destruct s as [|x s]; [reflexivity|]. unfold nth_is in Hs. cbn [nth_error] in Hs. cbn [hex_span]. now rewrite Hs.
+  - inversion Hd as [|? ? Ha Hd']; subst. cbn [hex_span length]. unfold hexb in Ha. rewrite Ha. f_equal. now apply IH.
+Qed.
+
+Lemma hex_span_firstn r :
+  Forall hexb (firstn (hex_span r) r) /\ length (firstn (hex_span r) r) = hex_span r.
+Proof.
+  induction r as [|c r [IH1 IH2]]; [split; [constructor|reflexivity]|]. cbn [hex_span].
+  destruct (is_hex c) eqn:E; cbn [firstn length].
+  - split; [constructor; assumption|now f_equal].
+  - split; [constructor|reflexivity].
+Qed.
+
+Lemma escape_len_hex d s : d <> [] -> Forall hexb d -> nth_is is_hex s 0 = false ->
+  escape_len (92 :: 120 :: d ++ s) = Some (S (S (length d))).
+Proof.
+  intros Hne Hd Hs. unfold escape_len, nth_is. cbn [nth_error skipn].
+  change (N.eqb BSL 92) with true. cbv iota.
+  change (simple_escape 120) with (@None N). change (is_dec 120) with false.
+  change (N.eqb 120 LX) with true. cbv iota.
+  rewrite hex_span_app by assumption. destruct d; [congruence|reflexivity].
+Qed.
 
 (* ---------------- one escape of the family is one alternative of the regex ---------------- *)
 Definition follows (i : item) (s : list N) : Prop :=
@@ -69,19 +103,17 @@ Proof.
     + destruct s as [|x s]; cbn [app nth_error]; [reflexivity|].
       cbn in Hf. rewrite not_dec by (apply Hf; cbn; lia). reflexivity.
     + reflexivity.
-  - destruct Hok as (Hlen & Hd).
-    destruct d as [|a [|b' [|? ?]]]; cbn [length] in Hlen; try lia;
-      repeat match goal with H : Forall _ (_ :: _) |- _ => inversion H; subst; clear H end;
-      unfold escape_len, nth_is; cbn [app nth_error length]; rewrite N.eqb_refl;
-      change (simple_escape 120) with (@None N); change (is_dec 120) with false;
-      change (N.eqb 120 LX) with true; cbv iota; repeat rewrite hex_is_hex by assumption.
-    + destruct s as [|x s]; cbn [app nth_error]; [reflexivity|].
-      cbn in Hf. rewrite not_hex by assumption. reflexivity.
-    + reflexivity.
+  - destruct Hok as (Hlen & Hd). cbn [app length].
+    assert (Hs : nth_is is_hex s 0 = false).
+    { destruct s as [|x s]; [reflexivity|]. cbn in Hf. unfold nth_is. cbn [nth_error]. now apply not_hex. }
+    rewrite escape_len_hex; [reflexivity| |now apply hex_hexb|exact Hs].
+    destruct d; [cbn in Hlen; lia|discriminate].
 Qed.
 
 Lemma item_text_cons i : exists tl, item_text i = 92 :: tl.
 Proof. destruct i; cbn; eauto. Qed.
+
+Definition items_text (its : list item) : list N := flat_map item_text its.
 
 Lemma go_item dec i s run : item_ok i -> follows i s ->
   unescape_go dec (item_text i ++ s) 0 run = unescape_go dec s 0 (run ++ item_text i).
@@ -94,8 +126,6 @@ Proof.
   - cbn [firstn]. f_equal. rewrite firstn_app, Nat.sub_diag, firstn_all. cbn. now rewrite app_nil_r.
 Qed.
 
-Definition items_text (its : list item) : list N := flat_map item_text its.
-
 Lemma go_items dec : forall its s run, Forall item_ok its ->
   follows (last its (INamed 0 0)) s ->
   unescape_go dec (items_text its ++ s) 0 run = unescape_go dec s 0 (run ++ items_text its).
@@ -107,6 +137,162 @@ Proof.
     + rewrite IH; [now rewrite app_assoc | assumption |].
       destruct its; [destruct s; exact I|]. exact Hf.
     + destruct its as [|j its]; [cbn; exact Hf|]. cbn [flat_map]. rewrite <- app_assoc. apply follows_item.
+Qed.
+
+(* ---------------- the long-x fix-up keeps the last two digits of a hex escape ---------------- *)
+(* the rest of a run: empty or the next escape *)
+Definition run_tail (s : list N) : Prop := s = [] \/ exists r, s = 92 :: r.
+
+Lemma run_tail_not_hex s : run_tail s -> nth_is is_hex s 0 = false.
+Proof. intros [-> | [r ->]]; reflexivity. Qed.
+
+Definition last2 (d : list N) : list N := skipn (length d - 2) d.
+
+Lemma last2_split d : (2 <= length d)%nat -> exists pre a b, d = pre ++ [a; b] /\ last2 d = [a; b].
+Proof.
+  intros H. pose proof (firstn_skipn (length d - 2) d) as E. fold (last2 d) in E.
+  assert (L : length (last2 d) = 2%nat) by (unfold last2; rewrite skipn_length; lia).
+  destruct (last2 d) as [|a [|b [|? ?]]]; cbn [length] in L; try lia.
+  exists (firstn (length d - 2) d), a, b. split; [now symmetry|reflexivity].
+Qed.
+
+Lemma Forall_skipn_ {A} (P : A -> Prop) n : forall l, Forall P l -> Forall P (skipn n l).
+Proof. induction n as [|n IH]; intros l H; [exact H|]. destruct l; [constructor|]. inversion H; subst. cbn [skipn]. now apply IH. Qed.
+
+Lemma last2_length d : (2 <= length d)%nat -> length (last2 d) = 2%nat.
+Proof. intros H. unfold last2. rewrite skipn_length. lia. Qed.
+
+Lemma skipn_last2 d s : (2 <= length d)%nat -> skipn (length d) (92 :: 120 :: d ++ s) = last2 d ++ s.
+Proof.
+  intros H. unfold last2. remember (length d - 2)%nat as k eqn:Ek.
+  replace (length d) with (S (S k)) by lia. cbn [skipn]. rewrite skipn_app.
+  replace (k - length d)%nat with O by lia. reflexivity.
+Qed.
+
+Lemma long_x_nonbs c s : c <> 92 -> long_x_at (c :: s) = None.
+Proof. intros H. unfold long_x_at, nth_is. cbn [nth_error]. destruct (N.eqb_spec BSL c); [unfold BSL in *; congruence|reflexivity]. Qed.
+
+Lemma long_x_not_x e s : e <> 120 -> long_x_at (92 :: e :: s) = None.
+Proof. intros H. unfold long_x_at, nth_is. cbn [nth_error]. destruct (N.eqb_spec LX e); [unfold LX in *; congruence|]. now rewrite andb_false_r. Qed.
+
+Lemma long_x_hex d s : Forall hexb d -> nth_is is_hex s 0 = false ->
+  long_x_at (92 :: 120 :: d ++ s) = match d with _ :: _ :: _ => Some (length d) | _ => None end.
+Proof.
+  intros Hd Hs. unfold long_x_at, nth_is. cbn [nth_error skipn].
+  change (N.eqb BSL 92) with true. change (N.eqb LX 120) with true. cbn [andb].
+  rewrite hex_span_app by assumption. destruct d as [|a [|b d]]; reflexivity.
+Qed.
+
+Lemma fixup_long_copy : forall d s, Forall (fun c => c <> 92) d -> fixup_long (d ++ s) 0 = d ++ fixup_long s 0.
+Proof. induction d as [|a d IH]; intros s H; [reflexivity|]. inversion H; subst.
+  cbn [app fixup_long]. rewrite long_x_nonbs by assumption. f_equal. now apply IH. Qed.
+
+(* backslash + one character that is not x *)
+Lemma fixup_long_pair e s : e <> 120 -> run_tail s -> fixup_long (92 :: e :: s) 0 = 92 :: e :: fixup_long s 0.
+Proof.
+  intros He Hs. cbn [fixup_long]. rewrite long_x_not_x by assumption. f_equal.
+  assert (HY : long_x_at (e :: s) = None).
+  { unfold long_x_at, nth_is. cbn [nth_error]. destruct (N.eqb_spec BSL e) as [<-|]; [|reflexivity].
+    destruct Hs as [-> | [r ->]]; reflexivity. }
+  rewrite HY. reflexivity.
+Qed.
+
+(* backslash + digits *)
+Lemma fixup_long_digits d s : Forall (fun c => c <> 92 /\ c <> 120) d -> run_tail s ->
+  fixup_long (92 :: d ++ s) 0 = 92 :: d ++ fixup_long s 0.
+Proof.
+  intros Hd Hs. cbn [fixup_long].
+  assert (HX : long_x_at (92 :: d ++ s) = None).
+  { destruct d as [|a d]; cbn [app].
+    - unfold long_x_at, nth_is. cbn [nth_error]. destruct Hs as [-> | [r ->]]; reflexivity.
+    - inversion Hd as [|? ? [_ Ha] _]; subst. now apply long_x_not_x. }
+  rewrite HX. f_equal. apply fixup_long_copy. eapply Forall_impl; [|exact Hd]. cbn. tauto.
+Qed.
+
+(* backslash x + hex digits *)
+Lemma fixup_long_hex1 a s : hexb a -> run_tail s ->
+  fixup_long (92 :: 120 :: a :: s) 0 = 92 :: 120 :: a :: fixup_long s 0.
+Proof.
+  intros Ha Hs. cbn [fixup_long].
+  pose proof (long_x_hex [a] s (Forall_cons _ Ha (Forall_nil _)) (run_tail_not_hex s Hs)) as HX.
+  cbn [app] in HX. rewrite HX. f_equal.
+  assert (Ha' : a <> 92) by (unfold hexb, is_hex, between in Ha; lia).
+  rewrite (long_x_nonbs 120) by discriminate. f_equal. rewrite long_x_nonbs by assumption. reflexivity.
+Qed.
+
+Lemma fixup_long_hex d s : Forall hexb d -> (2 <= length d)%nat -> run_tail s ->
+  fixup_long (92 :: 120 :: d ++ s) 0 = 92 :: 120 :: last2 d ++ fixup_long s 0.
+Proof.
+  intros Hd Hlen Hs. cbn [fixup_long].
+  assert (HX : long_x_at (92 :: 120 :: d ++ s) = Some (length d)).
+  { rewrite long_x_hex by (try apply run_tail_not_hex; auto). destruct d as [|a [|b d]]; cbn [length] in Hlen; try lia. reflexivity. }
+  rewrite HX. rewrite skipn_last2 by assumption.
+  change (120 :: d ++ s) with ((120 :: d) ++ s). change (S (length d)) with (length (120 :: d)).
+  rewrite fixup_long_skip. unfold BSL, LX. f_equal. f_equal. f_equal.
+  pose proof (last2_length d Hlen) as L. destruct (last2 d) as [|x [|y [|? ?]]]; cbn [length] in L; try lia. reflexivity.
+Qed.
+
+Lemma hexb_nonbs_ d : Forall hexb d -> Forall (fun c => c <> 92) d.
+Proof. apply Forall_impl. unfold hexb, is_hex, between. intros; lia. Qed.
+
+(* on the items of the family *)
+Definition plong (i : item) : item :=
+  match i with IHex (a :: b :: d) => IHex (last2 (a :: b :: d)) | _ => i end.
+Definition item_short (i : item) : Prop :=
+  match i with IHex d => (length d <= 2)%nat | _ => True end.
+
+Lemma items_run_tail its : run_tail (items_text its).
+Proof. destruct its as [|i its]; [now left|]. right. unfold items_text. cbn [flat_map].
+  destruct (item_text_cons i) as [tl ->]. eexists. reflexivity. Qed.
+
+Lemma fixup_long_item i s : item_ok i -> run_tail s ->
+  fixup_long (item_text i ++ s) 0 = item_text (plong i) ++ fixup_long s 0.
+Proof.
+  intros Hok Hs. destruct i as [e b | d | d]; cbn [item_text item_ok plong] in *.
+  - cbn [app]. apply fixup_long_pair; [|assumption].
+    intros ->. unfold c_named in Hok. cbn in Hok.
+    repeat (destruct Hok as [Hok|Hok]; [inversion Hok|]). destruct Hok.
+  - destruct Hok as (_ & Hd & _). cbn [app]. apply fixup_long_digits; [|assumption].
+    eapply Forall_impl; [|exact Hd]. unfold c_octal. cbn. intros; lia.
+  - destruct Hok as (Hlen & Hd). apply hex_hexb in Hd.
+    destruct d as [|a [|b' d']]; [cbn in Hlen; lia| |].
+    + inversion Hd; subst. cbn [app]. now apply fixup_long_hex1.
+    + change (fixup_long (92 :: 120 :: (a :: b' :: d') ++ s) 0 = 92 :: 120 :: last2 (a :: b' :: d') ++ fixup_long s 0).
+      apply fixup_long_hex; [assumption|cbn [length]; lia|assumption].
+Qed.
+
+Lemma fixup_long_items : forall its, Forall item_ok its ->
+  fixup_long (items_text its) 0 = items_text (map plong its).
+Proof.
+  induction its as [|i its IH]; intros Hok; [reflexivity|]. inversion Hok; subst.
+  unfold items_text in *. cbn [flat_map map]. rewrite fixup_long_item; [|assumption|apply items_run_tail].
+  f_equal. now apply IH.
+Qed.
+
+Lemma plong_ok i : item_ok i -> item_ok (plong i) /\ item_short (plong i).
+Proof.
+  destruct i as [e b | d | d]; cbn [plong item_ok item_short]; try tauto.
+  intros (Hlen & Hd). destruct d as [|a [|b' d']].
+  - cbn [length] in Hlen. lia.
+  - cbn [plong item_ok item_short length]. split; [split; [lia|assumption]|lia].
+  - cbn [plong item_ok item_short]. rewrite last2_length by (cbn [length]; lia).
+    split; [split; [lia|]|lia]. now apply Forall_skipn_.
+Qed.
+
+Lemma dv_last2 v pre a b : digits_value 16 v (pre ++ [a; b]) mod 256 = digits_value 16 v [a; b] mod 256.
+Proof.
+  unfold digits_value. rewrite fold_left_app. cbn [fold_left].
+  set (X := fold_left (fun acc c => acc * 16 + v c) pre 0).
+  replace ((X * 16 + v a) * 16 + v b) with ((0 * 16 + v a) * 16 + v b + X * 256) by lia.
+  apply N.mod_add. discriminate.
+Qed.
+
+Lemma plong_byte i : item_byte (plong i) = item_byte i.
+Proof.
+  destruct i as [e b | d | d]; try reflexivity. destruct d as [|a [|b' d']]; try reflexivity.
+  cbn [plong item_byte].
+  destruct (last2_split (a :: b' :: d') ltac:(cbn [length]; lia)) as (pre & x & y & E & ->).
+  rewrite E. symmetry. apply dv_last2.
 Qed.
 
 (* ---------------- the short-x fix-up pads one-digit hex escapes ---------------- *)
@@ -125,17 +311,10 @@ Proof. apply Forall_impl. unfold c_octal. intros; lia. Qed.
 Lemma hex_nonbs d : Forall c_hex d -> Forall (fun c => c <> 92) d.
 Proof. apply Forall_impl. unfold c_hex. intros; lia. Qed.
 
-(* the rest of a run: empty or the next escape *)
-Definition run_tail (s : list N) : Prop := s = [] \/ exists r, s = 92 :: r.
-
-Lemma items_run_tail its : run_tail (items_text its).
-Proof. destruct its as [|i its]; [now left|]. right. unfold items_text. cbn [flat_map].
-  destruct (item_text_cons i) as [tl ->]. eexists. reflexivity. Qed.
-
-Lemma fixup_item i s : item_ok i -> run_tail s ->
+Lemma fixup_item i s : item_ok i -> item_short i -> run_tail s ->
   fixup (item_text i ++ s) 0 = item_text (pad i) ++ fixup s 0.
 Proof.
-  intros Hok Hs. destruct i as [e b | d | d]; cbn [item_text item_ok pad] in *.
+  intros Hok Hsh Hs. destruct i as [e b | d | d]; cbn [item_text item_ok pad] in *.
   - cbn [app]. cbn [fixup].
     assert (HSX : short_x_at (92 :: e :: s) = false).
     { unfold short_x_at, nth_is. cbn [nth_error].
@@ -155,8 +334,8 @@ Proof.
       - destruct Hs as [-> | [r ->]]; reflexivity.
       - inversion Hd; subst. unfold c_octal in *. destruct (N.eqb_spec LX a); [unfold LX in *; lia|]. now rewrite andb_false_r. }
     rewrite HSX. f_equal. apply fixup_copy. now apply oct_nonbs.
-  - destruct Hok as (Hlen & Hd).
-    destruct d as [|a [|b' [|? ?]]]; cbn [length] in Hlen; try lia;
+  - destruct Hok as (Hlen & Hd). cbn [item_short] in Hsh.
+    destruct d as [|a [|b' [|? ?]]]; cbn [length] in Hlen, Hsh; try lia;
       repeat match goal with H : Forall _ (_ :: _) |- _ => inversion H; subst; clear H end.
     + (* one digit: padded *)
       cbn [app fixup].
@@ -172,17 +351,20 @@ Proof.
       rewrite !short_x_nonbs by (unfold c_hex in *; lia). reflexivity.
 Qed.
 
-Lemma fixup_items : forall its, Forall item_ok its ->
+Lemma fixup_items : forall its, Forall item_ok its -> Forall item_short its ->
   fixup (items_text its) 0 = items_text (map pad its).
 Proof.
-  induction its as [|i its IH]; intros Hok; [reflexivity|]. inversion Hok; subst.
-  unfold items_text in *. cbn [flat_map map]. rewrite fixup_item; [|assumption|apply items_run_tail].
+  induction its as [|i its IH]; intros Hok Hsh; [reflexivity|]. inversion Hok; subst. inversion Hsh; subst.
+  unfold items_text in *. cbn [flat_map map]. rewrite fixup_item; [|assumption|assumption|apply items_run_tail].
   f_equal. now apply IH.
 Qed.
 
 (* ---------------- evaluation of the bytes literal ---------------- *)
 Lemma pad_byte i : item_ok i -> item_byte (pad i) = item_byte i.
 Proof. destruct i as [| |d]; try reflexivity. destruct d as [|a [|]]; reflexivity. Qed.
+
+Lemma hex2_small a b' : c_hex a -> c_hex b' -> c_hexval a * 16 + c_hexval b' < 256.
+Proof. intros Ha Hb. pose proof (hexval_lt a Ha). pose proof (hexval_lt b' Hb). lia. Qed.
 
 Lemma bytes_eval_bind_ok s k b w : bytes_eval s k = Ok (b, w) ->
   forall x v, (do y <- bytes_eval s k; Ok (x :: fst y, v || snd y)) = Ok (x :: b, v || w) :> outcome (list N * bool) unit.
@@ -216,10 +398,10 @@ Proof.
   destruct Hne as (-> & -> & ->). rewrite (oct_is_oct a) by assumption. reflexivity.
 Qed.
 
-Lemma bytes_eval_item i s b w : item_ok i -> run_tail s -> bytes_eval s 0 = Ok (b, w) ->
+Lemma bytes_eval_item i s b w : item_ok i -> item_short i -> run_tail s -> bytes_eval s 0 = Ok (b, w) ->
   bytes_eval (item_text (pad i) ++ s) 0 = Ok (item_byte i :: b, w).
 Proof.
-  intros Hok Hs Hrest. destruct i as [e v | d | d]; cbn [item_text item_ok pad item_byte] in *.
+  intros Hok Hsh Hs Hrest. destruct i as [e v | d | d]; cbn [item_text item_ok pad item_byte] in *.
   - cbn [app bytes_eval]. change (N.eqb 92 BSL) with true. cbv iota.
     assert (He : N.eqb e 39 = false /\ N.eqb e 10 = false).
     { unfold c_named in Hok. cbn in Hok.
@@ -243,19 +425,39 @@ Proof.
       rewrite (hex_is_hex a), (hex_is_hex b') by assumption. cbn [andb].
       change (bytes_eval (120 :: a :: b' :: s) 3) with (bytes_eval s 0). rewrite Hrest. cbn [obind fst snd].
       now rewrite !hexval_eq by assumption. }
-    destruct d as [|a [|b' [|? ?]]]; cbn [length] in Hlen; try lia;
+    cbn [item_short] in Hsh.
+    destruct d as [|a [|b' [|? ?]]]; cbn [length] in Hlen, Hsh; try lia;
       repeat match goal with H : Forall _ (_ :: _) |- _ => inversion H; subst; clear H end;
       cbn [pad item_text app].
-    + rewrite Hpy; [|unfold c_hex; lia|assumption]. unfold digits_value. cbn. reflexivity.
-    + rewrite Hpy by assumption. unfold digits_value. cbn. reflexivity.
+    + rewrite Hpy; [|unfold c_hex; lia|assumption]. unfold digits_value. cbn [fold_left].
+      change (c_hexval 48) with 0. rewrite N.mod_small; [reflexivity|].
+      match goal with H : c_hex a |- _ => pose proof (hexval_lt a H) end. lia.
+    + rewrite Hpy by assumption. unfold digits_value. cbn [fold_left].
+      rewrite N.mod_small; [reflexivity|]. change (0 * 16 + c_hexval a) with (c_hexval a). now apply hex2_small.
 Qed.
 
-Lemma bytes_eval_items : forall its, Forall item_ok its ->
+Lemma bytes_eval_items : forall its, Forall item_ok its -> Forall item_short its ->
   bytes_eval (items_text (map pad its)) 0 = Ok (map item_byte its, false).
 Proof.
-  induction its as [|i its IH]; intros Hok; [reflexivity|]. inversion Hok; subst.
+  induction its as [|i its IH]; intros Hok Hsh; [reflexivity|]. inversion Hok; subst. inversion Hsh; subst.
   unfold items_text in *. cbn [flat_map map].
-  apply bytes_eval_item; [assumption|apply items_run_tail|now apply IH].
+  apply bytes_eval_item; [assumption|assumption|apply items_run_tail|now apply IH].
+Qed.
+
+(* both fix-ups, then the evaluation: the bytes of the items, every hex escape reduced mod 256 *)
+Lemma plong_all its : Forall item_ok its ->
+  Forall item_ok (map plong its) /\ Forall item_short (map plong its) /\ map item_byte (map plong its) = map item_byte its.
+Proof.
+  induction 1 as [|i its Hi _ (IH1 & IH2 & IH3)]; [repeat split; constructor|].
+  destruct (plong_ok i Hi) as [H1 H2]. cbn [map]. repeat split; try (constructor; assumption).
+  rewrite plong_byte. now f_equal.
+Qed.
+
+Lemma eval_run_items its : Forall item_ok its ->
+  bytes_eval (fixup (fixup_long (items_text its) 0) 0) 0 = Ok (map item_byte its, false).
+Proof.
+  intros Hok. destruct (plong_all its Hok) as (H1 & H2 & H3).
+  rewrite fixup_long_items, fixup_items, bytes_eval_items by assumption. now rewrite H3.
 Qed.
 
 (* ---------------- a run ---------------- *)
@@ -271,7 +473,7 @@ Lemma unescape_run_items dec its t : ascii_compatible dec -> Forall item_ok its 
   dec (map item_byte its) = Some t ->
   unescape_run dec (items_text its) = Ok (t, false).
 Proof.
-  intros Hc Hok Hd. unfold unescape_run. rewrite fixup_items, bytes_eval_items by assumption.
+  intros Hc Hok Hd. unfold unescape_run. rewrite eval_run_items by assumption.
   cbn [lift_crash obind fst snd]. now rewrite (decode_run_ok _ _ _ Hc Hd).
 Qed.
 
@@ -401,4 +603,45 @@ Theorem unescape_roundtrip_chars enc dec : ascii_compatible dec -> codec_ok enc 
 Proof.
   intros Ha Hc sp Hok. destruct (pieces_of_spec enc dec Hc sp Hok) as (H1 & H2 & H3 & _).
   rewrite <- H2, <- H3. now apply unescape_roundtrip.
+Qed.
+
+(* ---------------- a hex escape with any number of digits is ONE byte: the value mod 256 ---------------- *)
+(* the run on its own: whatever the codec *)
+Lemma hex_run_byte dec d : d <> [] -> Forall c_hex d ->
+  unescape_run dec (92 :: 120 :: d) =
+  (do t <- decode_run dec [digits_value 16 c_hexval d mod 256]; Ok (t, false)).
+Proof.
+  intros Hne Hd. unfold unescape_run.
+  assert (Hok : Forall item_ok [IHex d]).
+  { constructor; [|constructor]. cbn [item_ok]. split; [|assumption]. destruct d; [congruence|cbn [length]; lia]. }
+  pose proof (eval_run_items [IHex d] Hok) as E. unfold items_text in E. cbn [flat_map item_text map item_byte] in E.
+  rewrite app_nil_r in E. rewrite E. reflexivity.
+Qed.
+
+(* inside a chunk: literal text before, literal text after that does not begin with a hex digit *)
+Theorem hex_escape_all_digits dec : ascii_compatible dec -> forall pre d post t,
+  Forall lit_ok pre -> d <> [] -> Forall c_hex d ->
+  Forall lit_ok post -> match post with c :: _ => ~ c_hex c | [] => True end ->
+  dec [digits_value 16 c_hexval d mod 256] = Some t ->
+  unescape dec (pre ++ 92 :: 120 :: d ++ post) = Ok (pre ++ t ++ post, false).
+Proof.
+  intros Hc pre d post t Hpre Hne Hd Hpost Hnext Ht.
+  assert (Hi : item_ok (IHex d)).
+  { cbn [item_ok]. split; [|assumption]. destruct d; [congruence|cbn [length]; lia]. }
+  assert (Hmid : chunk_ok dec (PEsc [IHex d] t :: match post with [] => [] | _ => [PLit post] end)).
+  { cbn [chunk_ok]. repeat split; try discriminate; auto.
+    - destruct post as [|c post]; [exact I|]. cbn [last may_follow]. exact Hnext.
+    - destruct post as [|c post]; [exact I|]. cbn [chunk_ok]. repeat split; auto; discriminate. }
+  assert (Hall : chunk_ok dec (match pre with [] => [] | _ => [PLit pre] end ++
+                               PEsc [IHex d] t :: match post with [] => [] | _ => [PLit post] end)).
+  { destruct pre as [|c pre]; [exact Hmid|]. cbn [app].
+    set (r := PEsc [IHex d] t :: _) in *.
+    change (c :: pre <> [] /\ Forall lit_ok (c :: pre) /\ match r with PLit _ :: _ => False | _ => True end /\ chunk_ok dec r).
+    split; [discriminate|]. split; [assumption|]. split; [exact I|exact Hmid]. }
+  pose proof (unescape_roundtrip dec Hc _ Hall) as R.
+  replace (chunk_text _) with (pre ++ 92 :: 120 :: d ++ post) in R.
+  2:{ unfold chunk_text. destruct pre, post; cbn [app flat_map piece_text item_text]; rewrite ?app_nil_r; try reflexivity;
+      rewrite <- ?app_assoc; reflexivity. }
+  rewrite R. f_equal. f_equal. unfold chunk_value.
+  destruct pre, post; cbn [app flat_map piece_value]; rewrite ?app_nil_r; try reflexivity; rewrite <- ?app_assoc; reflexivity.
 Qed.
